@@ -581,10 +581,20 @@ func (t *FnTrans) elemCandidates() []string {
 
 func (t *FnTrans) calleeEnv(callee *ssa.Function, con *Contract, args []Val, st *HeapState) *Env {
 	vars := map[string]Val{}
-	for i, p := range callee.Params {
-		if i < len(args) {
-			vars[p.Name()] = t.materialize(args[i], p.Type())
+	sig := callee.Signature
+	k := 0
+	if r := sig.Recv(); r != nil {
+		if k < len(args) {
+			vars[r.Name()] = t.materialize(args[k], r.Type())
 		}
+		k++
+	}
+	for i := 0; i < sig.Params().Len(); i++ {
+		p := sig.Params().At(i)
+		if k < len(args) {
+			vars[p.Name()] = t.materialize(args[k], p.Type())
+		}
+		k++
 	}
 	var pkg *types.Package
 	if callee.Pkg != nil {
